@@ -179,7 +179,6 @@ CLAIMED["C13"] = dict(
          "entropy failure gives an error and no key or signature.",
     note="Arithmetic equivalence with crypto/ecdsa 'for every value' is sampled, not decided. MaybeReadByte's coin is unobservable, so with exactly 32 bytes available both outcomes are allowed.",
     technique="TLA+ decision-structure and fault-sequence spec + TLC model checking + TLC trace validation of recorded fork-vs-stdlib calls and scripted entropy failures",
-    category="fault_enumeration",
     ref="5/C13")
 CLAIMED["C14"] = dict(
     text="SigForks.tla states the structural part of Ed25519 verification (length, top bits, S < L computed by TLC from the logged "
@@ -192,7 +191,6 @@ CLAIMED["C14"] = dict(
     note="NOT decided: equivalence of the fork's 2.5k lines of field/scalar arithmetic 'for all inputs incl. rare carry "
          "patterns' - outside what a TLA+ specification can state; exercised only through the sampled inputs. Only the public API is driven.",
     technique="TLA+ decision-structure spec + TLC trace validation of recorded fork-vs-crypto/ed25519 calls on adversarial encodings and scripted entropy failures",
-    category="fault_enumeration",
     ref="5/C14")
 CLAIMED["C15"] = dict(
     text="KeyBlind.tla with Deterministic = TRUE: the blinding laws plus SignDeterministic, checked by TLC over all key terms up "
